@@ -1,3 +1,54 @@
-From Cache Require Import Base Failover.
-Theorem C02_placeholder : True. Proof. exact I. Qed.
-Print Assumptions C02_placeholder.
+(* C02 — Failover results always have provenance; nothing is fabricated or mixed up.
+
+   Model: theories/Failover.v (interleaving model with adversarial backend, builder and clock; ghost
+   event log [flog]). The theorem is an invariant over every reachable state, for every staleness test
+   and every nil test that recognises the zero token (the executable instance [nil_impl] does). *)
+From Cache Require Import Base Failover FailoverProofs FailoverProv.
+
+(* Every return event is justified by the events BEFORE it: with a nil error the value was returned by
+   a builder invocation for the same key that had finished, or was read from the backend under that
+   key; an error was produced by a builder invocation for that key (possibly served from the failure
+   cache) or by the backend (failed read, rejected write) for that key. *)
+Theorem C02_provenance :
+  forall (fe : dur -> time -> time -> bool) (nilb : val -> bool), nilb 0 = true ->
+  forall c ls s pre post t k v e,
+    frun fe nilb c f0 ls = Some s -> flog s = pre ++ FReturn t k v e :: post ->
+    rprov pre k (v, e).
+Proof. intros fe nilb Hnil c ls s pre post t k v e. exact (provenance fe nilb Hnil c ls s pre post t k v e). Qed.
+Print Assumptions C02_provenance.
+
+(* spelled out for the two halves of the statement *)
+Theorem C02_value_was_built_or_stored :
+  forall fe nilb, nilb 0 = true ->
+  forall c ls s pre post t k v,
+    frun fe nilb c f0 ls = Some s -> flog s = pre ++ FReturn t k v None :: post ->
+    (exists t', FBuildEnd t' k (inl v) ∈ pre) \/
+    (exists t' r, FRead t' k r ∈ pre /\ (r = RHit v \/ exists a, r = RExp v a)).
+Proof.
+  intros fe nilb Hnil c ls s pre post t k v Hr Hl.
+  destruct (provenance fe nilb Hnil c ls s pre post t k v None Hr Hl) as [H|(t' & r & Hin & Hv)]; [by left|right].
+  exists t', r. split; [done|]. destruct r; cbn in Hv; simplify_eq; eauto.
+Qed.
+Print Assumptions C02_value_was_built_or_stored.
+
+Theorem C02_error_was_produced :
+  forall fe nilb, nilb 0 = true ->
+  forall c ls s pre post t k v e,
+    frun fe nilb c f0 ls = Some s -> flog s = pre ++ FReturn t k v (Some e) :: post ->
+    eprov pre k e.
+Proof. intros fe nilb Hnil c ls s pre post t k v e Hr Hl. exact (provenance fe nilb Hnil c ls s pre post t k v (Some e) Hr Hl). Qed.
+Print Assumptions C02_error_was_produced.
+
+(* the executable model satisfies the hypothesis on the nil test *)
+Example C02_nil_impl_zero : nil_impl 0 = true.
+Proof. reflexivity. Qed.
+
+(* non-vacuity: a run in which a Get returns a built value *)
+Example C02_some_return :
+  let o := mkOrc 10 RMiss None (inl 7) [] 0 in
+  let c := mkFcfg Legacy false false false 0 20 60 false false false in
+  match frun_x c f0 (LSpawn 1%N [1%N] false None :: replicate 11 (LStep 1%N o)) with
+  | Some s => match last (flog s) with Some (FReturn _ _ v None) => v =? 7 | _ => false end
+  | None => false
+  end = true.
+Proof. vm_compute. reflexivity. Qed.
